@@ -6,6 +6,7 @@ import (
 	"fmt"
 	"io"
 	"log"
+	"strings"
 	"testing"
 	"time"
 
@@ -32,7 +33,7 @@ type Case struct {
 	Fillers  []int  `json:"fillers"` // per message: payload size of the filler AVP
 	Tail     Tail   `json:"tail"`
 	Cuts     []int  `json:"cuts"`     // fragment sizes; the remainder forms the last fragment
-	Consumer string `json:"consumer"` // direct | conn
+	Consumer string `json:"consumer"` // direct (scripted reader) | conn | bytes.Reader | bytes.Buffer | strings.Reader (ReadMessage in a loop on an in-memory reader that knows its length)
 	// EOFWithData: the read that delivers the last fragment also reports io.EOF (as io.Reader
 	// allows; iotest.DataErrReader, TLS with a pending close_notify and in-memory transports do it).
 	EOFWithData bool `json:"eof_with_data,omitempty"`
@@ -164,12 +165,35 @@ func (r *fragReader) Read(p []byte) (int, error) {
 	return n, nil
 }
 
+// sizedReader wraps an in-memory reader that reports how much it still holds (Len), counting
+// what has been consumed from that.
+type sizedReader interface {
+	io.Reader
+	Len() int
+}
+
 func runDirect(c Case) *ev.Failure {
 	msgs, all, _ := c.stream()
 	r := &fragReader{frags: c.fragments(all), eofWithData: c.EOFWithData}
+	var rd io.Reader = r
+	var sized sizedReader
+	switch c.Consumer {
+	case "bytes.Reader":
+		sized = bytes.NewReader(all)
+	case "bytes.Buffer":
+		sized = bytes.NewBuffer(append([]byte{}, all...))
+	case "strings.Reader":
+		sized = strings.NewReader(string(all))
+	}
+	if sized != nil {
+		rd = sized
+	}
 	want := 0
 	for i, orig := range msgs {
-		m, err := diam.ReadMessage(r, dict.Default)
+		m, err := diam.ReadMessage(rd, dict.Default)
+		if sized != nil {
+			r.consumed = len(all) - sized.Len()
+		}
 		if err != nil {
 			return ev.Failf("message-lost", "message %d of %d (length %d) was not returned: %v (reader consumed %d of %d bytes)", i, len(msgs), len(orig), err, r.consumed, len(all))
 		}
@@ -181,7 +205,10 @@ func runDirect(c Case) *ev.Failure {
 			return ev.Failf("consumed-bytes", "after message %d the reader had been asked for %d bytes, the declared lengths add up to %d", i, r.consumed, want)
 		}
 	}
-	m, err := diam.ReadMessage(r, dict.Default)
+	m, err := diam.ReadMessage(rd, dict.Default)
+	if sized != nil {
+		r.consumed = len(all) - sized.Len()
+	}
 	switch c.Tail.Kind {
 	case "clean":
 		if err != io.EOF || m != nil {
@@ -326,6 +353,8 @@ func classify(c Case) (bool, []string) {
 			cl = append(cl, "body-just-above-1KiB")
 		case b <= 1024 && b > 950:
 			cl = append(cl, "body-just-below-1KiB")
+		case b >= 1<<20:
+			cl = append(cl, "message>=1MiB")
 		case b > 60000:
 			cl = append(cl, "body>60KB")
 		}
@@ -358,6 +387,9 @@ func genCase(t *rapid.T) Case {
 			f = rapid.IntRange(976, 1020).Draw(t, "filler")
 		case 8:
 			f = rapid.IntRange(4000, 4200).Draw(t, "filler")
+			if rapid.IntRange(0, 5).Draw(t, "megabytes") == 0 { // declared lengths with bits 20..23 set
+				f = rapid.SampledFrom([]int{1<<20 - 60, 1<<20 - 40, 1 << 20, 1<<20 + 4096, 3<<20 + 8, 1<<23 + 24}).Draw(t, "filler-MiB")
+			}
 		default:
 			f = rapid.IntRange(65000, 72000).Draw(t, "filler")
 		}
@@ -368,10 +400,13 @@ func genCase(t *rapid.T) Case {
 		c.Tail.Kind = "clean"
 	case 2:
 		c.Tail = Tail{Kind: "truncated", Keep: rapid.IntRange(1, 79).Draw(t, "keep")}
+		if rapid.Bool().Draw(t, "keep-on-avp-boundary") {
+			c.Tail.Keep = rapid.SampledFrom([]int{20, 32}).Draw(t, "keep-boundary") // right after the header / after the first AVP
+		}
 	default:
 		c.Tail = Tail{Kind: "short-length", Declared: rapid.IntRange(0, 19).Draw(t, "declared"), Trailing: rapid.IntRange(0, 120).Draw(t, "trailing")}
 	}
-	c.Consumer = rapid.SampledFrom([]string{"direct", "direct", "conn"}).Draw(t, "consumer")
+	c.Consumer = rapid.SampledFrom([]string{"direct", "direct", "conn", "conn", "bytes.Reader", "bytes.Buffer", "strings.Reader"}).Draw(t, "consumer")
 	c.EOFWithData = rapid.IntRange(0, 2).Draw(t, "eof-with-data") == 0
 	c.NoPad = rapid.IntRange(0, 3).Draw(t, "no-pad") == 0
 	if c.Consumer == "conn" && rapid.Bool().Draw(t, "answer") {
@@ -403,7 +438,7 @@ func genCase(t *rapid.T) Case {
 
 var prop = ev.Register(&ev.Prop[Case]{
 	ID: "C05", Name: "stream",
-	Rule: "1..6 messages with bodies around the 1 KiB pooled buffer (996..1040), tiny, ~4 KiB and ~70 KB, concatenated; tail = clean end / truncation 1..79 bytes into a further message / a header declaring length 0..19 followed by 0..120 bytes that look like further messages; fragmentation = one segment / runs of 1-byte reads / boundary-sized fragments; 1 in 4 cases with every message's last AVP unpadded and the declared length exact (not a multiple of 4); consumed by ReadMessage in a loop on a scripted reader (which counts the bytes asked for) and by the library's connection loop, whose handler optionally answers every message while one transport write is refused with a temporary error; non-trivial = >=2 messages and a read boundary strictly inside a message",
+	Rule: "1..6 messages with bodies around the 1 KiB pooled buffer (996..1040), tiny, ~4 KiB, ~70 KB and (rarely) 1..8 MiB, concatenated; tail = clean end / truncation 1..79 bytes into a further message / a header declaring length 0..19 followed by 0..120 bytes that look like further messages; fragmentation = one segment / runs of 1-byte reads / boundary-sized fragments; 1 in 4 cases with every message's last AVP unpadded and the declared length exact (not a multiple of 4); consumed by ReadMessage in a loop on a scripted reader (which counts the bytes asked for), on bytes.Reader / bytes.Buffer / strings.Reader (which know how much they hold) and by the library's connection loop, whose handler optionally answers every message while one transport write is refused with a temporary error; non-trivial = >=2 messages and a read boundary strictly inside a message",
 	Gen:  genCase, Run: runCase, Classify: classify,
 })
 
